@@ -126,6 +126,21 @@ def deep_agree(f, m, out, where, idxs=None):
             if got != m.get_slice(a, b) or not isinstance(got, int):
                 out.append(("C05:slice-read", "%s: f[%d:%d]=%r model %r" % (where, a, b, got, m.get_slice(a, b))))
                 break
+        # iteration yields the bits from bit 0 up, and an iterator reads the frame as it is when it gets to a bit
+        bits_seen = list(f)
+        if bits_seen != m.bits or any(type(b) is not bool for b in bits_seen):
+            out.append(("C05:iteration", "%s: list(frame) gives %r, model %r" % (where, bits_seen[:24], m.bits[:24])))
+        elif w >= 2:
+            it = iter(f)
+            first = next(it)
+            j = w - 1
+            old_bit = m.bits[j]
+            f[j] = not old_bit
+            rest = list(it)
+            f[j] = old_bit
+            if [first] + rest != m.bits[:j] + [not old_bit]:
+                out.append(("C05:iteration-of-a-frame-being-written", "%s: an iterator started before bit %d was written still "
+                            "shows %r for it" % (where, j, rest[-1] if rest else None)))
         be = m.be_bytes()
         if f.as_byte_sequence != be:
             out.append(("C05:byte-sequence", "%s: %r model %r" % (where, f.as_byte_sequence, be)))
